@@ -1303,3 +1303,70 @@ Proof.
   - exfalso. apply Hnin. rewrite <- Heq. exact (in_map fseq _ _ H1).
   - exact (IH Hnd' _ _ H1 H2 Heq).
 Qed.
+
+(* ------------------------------------------------------------------------------------------- *)
+(* C01: a commit of an event implies that the output acknowledged it                             *)
+(* the send of batch q was acknowledged - plain batcher: its OutFn returned (it cannot fail); retry frame: a call of outFn
+   returned success.  A give-up is NOT an acknowledgement, whatever its cause (attempts used up or backoff.Stop with attempts
+   remaining / unlimited): with a dead queue the events belong to the dead queue from then on and this batcher commits none of
+   them; without one the batch is the output's reported loss (onRetryError ran), and is committed as such. *)
+Lemma commit_event_acknowledged c ls s e s' :
+  run c (init c) ls = Some s -> step c s (LCommitEv e) = Some s' ->
+  exists b k, committing_bat (flight s) = Some b /\ bstage b = Committing k /\ nth_error (bevs b) k = Some e /\
+              (has_iter (bevs b) = true ->
+                 (if retriable c then exists t, In (bseq b, t, true) (result_hist s) else In (bseq b) (sent_hist s)) \/
+                 (retriable c = true /\ deadq c = false /\ In (bseq b) (map fseq (failed_hist s)))).
+Proof.
+  intros Hr H. pose proof (wf_reach _ _ _ Hr) as Hwf.
+  destruct (run_invariant_wf c inv_sent (inv_sent_step c) (inv_sent_init c) ls s Hr) as [S1 _].
+  pose proof H as H0. step_inv H.
+  destruct (committing_bat_Some _ _ Heqo) as [Hin Hcm].
+  match goal with He : ev_eqb e ?x = true |- _ => apply ev_eqb_eq in He; subst x end.
+  exists b, done. split; [reflexivity|]. split; [assumption|].
+  split; [destruct (bemptied b); [discriminate|assumption]|].
+  intros Hi. destruct (retriable c) eqn:Hret.
+  - destruct (run_invariant_wf c inv_settled (fun s0 l s1 Hw Hp => inv_settled_step c s0 l s1 Hret Hw Hp)
+                (inv_settled_init c) ls s Hr) as [I1 _].
+    assert (Hp : done_prem b) by (unfold done_prem; rewrite Heqs0; exact Hi).
+    destruct (I1 _ Hin Hp) as [Hok|Hf]; [left; exact Hok|].
+    destruct (deadq c) eqn:Hdq.
+    + exfalso. destruct (deadqueue_no_commit_event c ls s e _ Hdq Hr H0) as (b1 & Hb1 & Hn).
+      rewrite Heqo in Hb1. inversion Hb1; subst b1. exact (Hn Hf).
+    + right. repeat split; assumption.
+  - left. apply S1; [exact Hin|]. right. split; [exact Hcm|exact Hi].
+Qed.
+
+(* hence: with a dead queue, a batch the retry loop gave up - for EITHER cause - commits nothing, and whatever is committed
+   was acknowledged by this output *)
+Lemma deadqueue_commit_event_acknowledged c ls s e s' :
+  retriable c = true -> deadq c = true -> run c (init c) ls = Some s -> step c s (LCommitEv e) = Some s' ->
+  exists b, committing_bat (flight s) = Some b /\ In e (bevs b) /\ ~ In (bseq b) (map fseq (failed_hist s)) /\
+            (has_iter (bevs b) = true -> exists t, In (bseq b, t, true) (result_hist s)).
+Proof.
+  intros Hret Hdq Hr H. destruct (commit_event_acknowledged c ls s e s' Hr H) as (b & k & Hb & _ & Hn & Ha).
+  destruct (deadqueue_no_commit_event c ls s e s' Hdq Hr H) as (b1 & Hb1 & Hnf).
+  rewrite Hb in Hb1. inversion Hb1; subst b1. exists b. split; [exact Hb|]. split; [exact (nth_error_In _ _ Hn)|].
+  split; [exact Hnf|]. intros Hi. destruct (Ha Hi) as [Hk|(_ & Hd & _)].
+  - rewrite Hret in Hk. exact Hk.
+  - congruence.
+Qed.
+
+(* a give-up by backoff.Stop on the FIRST failure with attempts remaining (retry 3) and a dead queue: accepted by the LTS, the
+   batch comes back from Out empty (OutEnd 0 / status 3; the kept batch - OutEnd 1 / status 1 - is rejected), its commit section
+   commits nothing (CommitEv rejected) *)
+Definition cfg_stop_dq : cfg :=
+  {| workers := 1; maxCount := 1; maxBytes := 0; retriable := true; retry := 3; deadq := true; atomic_push := true |}.
+Definition stop_giveup_run : list label :=
+  [LFree; LAdd ev1; LSeal 0 1 1 1; LPush 0; LTake 0; LOutBegin 0 1; LRetryCall 0 0; LRetryResult 0 0 false;
+   LRetryGiveUp 0 0 1 true true].
+Lemma giveup_by_stop_nonvacuous :
+  (exists s, run cfg_stop_dq (init cfg_stop_dq) (stop_giveup_run ++ [LOutEnd 0 0 3; LCommitBegin 0 0]) = Some s /\
+             failed_hist s = [(0, 0, true, [ev1])] /\ step cfg_stop_dq s (LCommitEv ev1) = None /\
+             exists s', step cfg_stop_dq s (LCommitEnd 0 3) = Some s' /\ committed s' = [] /\ flight s' = []) /\
+  run cfg_stop_dq (init cfg_stop_dq) (stop_giveup_run ++ [LOutEnd 0 1 1]) = None /\
+  run cfg_stop_dq (init cfg_stop_dq) (stop_giveup_run ++ [LOutEnd 0 0 3; LCommitBegin 0 1]) = None.
+Proof.
+  split; [|split; vm_compute; reflexivity].
+  eexists. split; [vm_compute; reflexivity|]. split; [reflexivity|]. split; [vm_compute; reflexivity|].
+  eexists. split; [vm_compute; reflexivity|]. split; reflexivity.
+Qed.
